@@ -126,6 +126,7 @@ def execute(desc):
     kernel.ACTIVE = sim
     sim.adopt_main()
     ctor_exc = exec_exc = exp_exc = None
+    trial_ids = None
     files = []
     runs = []
     tables = None
@@ -159,6 +160,11 @@ def execute(desc):
                 runs = copy.deepcopy(sim.obs.get("party_runs", []))
                 if exec_exc is None:
                     tables = [(list(df.columns), len(df)) for df in mt._df2]
+                    try:
+                        trial_ids = [{c: [cell.get("id_trial") if isinstance(cell, dict) else None for cell in df[c]]
+                                      for c in df.columns} for df in mt._df2]
+                    except Exception:
+                        trial_ids = None
                     try:
                         mt.export_results(desc["export"], desc["save_path"])
                         if desc["export_twice"]:
@@ -236,6 +242,13 @@ def execute(desc):
                 add("table_shape", f"table of {ALGOS[i]} has columns {cols} and {nrows} rows; expected one column per "
                                    f"task {want_cols} and {desc['n_trials']} rows")
                 break
+        # "a row per trial": row k of every column holds trial k
+        for i, cols in enumerate(trial_ids or []):
+            for c, ids in cols.items():
+                if ids != list(range(1, desc["n_trials"] + 1)):
+                    add("table_rows", f"column {c} of the table of {ALGOS[i]} holds trials {ids} in its rows; row k must "
+                                      f"hold trial k (1..{desc['n_trials']})")
+                    break
     # -- export
     if exp_exc is not None:
         add(f"export_raised:{type(exp_exc).__name__}", f"export_results({desc['export']!r}, {desc['save_path']!r}) raised "
